@@ -90,7 +90,7 @@ def c09(tier, seed):
             Run("seqops", "debug", ["--flavours", ALLNATIVE, "big=1"], shards=4),
             Run("seqops", "release", ["--flavours", ALLNATIVE, "big=1"], shards=4),
             Run("seqops", "miri", ["--flavours", "HeapTok,ZTok,u8,[u64;3]", "--maxn", "4"], shards=16, label="seqops/miri(N<=4)"),
-            Run("seqops", "miri", ["--flavours", "u8", "--maxn", "65", "--part", "big"], shards=8, label="seqops/miri(big<=65)"),
+            Run("seqops", "miri", ["--flavours", "u8", "--maxn", "65", "--part", "big", "big=1"], shards=8, label="seqops/miri(big<=65)"),
         ]
     return [
         Run("seqops", "debug", ["--flavours", ALLNATIVE], shards=8),
